@@ -1,5 +1,5 @@
 import RzmqModel.Model.Rpq
-import RzmqModel.Proofs.Rpq
+import RzmqModel.Proofs.RpqInv
 /-!
 # C08 — a receiver never sleeps while a message is queued for it (no lost wake-ups)
 
@@ -11,114 +11,108 @@ and is still going to put `p` back on (or is holding it off) the ready list.
 namespace Rzmq.C08
 open Rzmq
 
-/-- task at `pc` currently holds pipe `p`'s token -/
-def holdsToken (p : Nat) : Pc → Bool
-  | .sendCounted q prev => q == p && prev == 0
-  | .trySendCounted q prev => q == p && prev == 0
-  | .batchWritten q _ _ _ zero => q == p && zero
-  | .batchCounted q _ _ _ zero => q == p && zero
-  | .batchRolledBack q _ _ zero => q == p && zero
-  | .popGotSlot q => q == p
-  | .popTaken q _ => q == p
-  | .popDecremented q _ prev => q == p && decide (prev > 1)
-  | .tryPopGotSlot q => q == p
-  | .tryPopTaken q _ => q == p
-  | .tryPopDecremented q _ prev => q == p && decide (prev > 1)
-  | _ => false
-
-/-- a producer has written into `p`'s channel but not yet incremented `queued_count` -/
-def uncounted (p : Nat) : Pc → Bool
-  | .sendWritten q => q == p
-  | .trySendWritten q => q == p
-  | .batchWritten q _ _ _ _ => q == p
-  | _ => false
-
-/-- a consumer has taken an item out of `p`'s channel but not yet decremented `queued_count` -/
-def takenNotCounted (p : Nat) : Pc → Bool
-  | .popTaken q _ => q == p
-  | .tryPopTaken q _ => q == p
-  | _ => false
-
-/-- the task is a producer operating on pipe `p` (between its start and its completion) -/
-def producerOn (p : Nat) : Pc → Bool
-  | .sendStart q _ | .sendReserved q _ | .sendWritten q | .sendCounted q _ => q == p
-  | .trySendStart q _ | .trySendWritten q | .trySendCounted q _ => q == p
-  | .batchStart q _ | .batchReserved q _ _ _ _ | .batchWritten q _ _ _ _ | .batchCounted q _ _ _ _
-  | .batchRolledBack q _ _ _ => q == p
-  | _ => false
-
-def countTasks (s : RpqSt) (f : Pc → Bool) : Nat := (s.tasks.filter fun e => f e.2).length
-
-/-- reservations on pipe `p` taken by the task at `pc` and neither committed (counted) nor rolled back yet -/
-def pendingRes (p : Nat) : Pc → Int
-  | .sendReserved q _ => if q == p then 1 else 0
-  | .sendWritten q => if q == p then 1 else 0
-  | .trySendWritten q => if q == p then 1 else 0
-  | .batchReserved q n _ sent _ => if q == p then (n : Int) - sent else 0
-  | .batchWritten q n _ sent _ => if q == p then (n : Int) - sent + 1 else 0
-  | .batchCounted q n _ sent _ => if q == p then (n : Int) - sent else 0
-  | _ => 0
-
-def sumPending (s : RpqSt) (p : Nat) : Int := (s.tasks.map fun e => pendingRes p e.2).sum
-
-def tokens (s : RpqSt) (p : Nat) : Nat := s.ready.count p + countTasks s (holdsToken p)
-
-/-- structural well-formedness the harness guarantees: distinct pipe ids, distinct task names, the per-pipe
-channel is single-producer (`fibre::spsc`), every pipe is registered, the ready list can hold one entry per pipe -/
-def WellFormed (s : RpqSt) : Prop :=
-  (s.pipes.map (·.id)).Nodup ∧ (s.tasks.map (·.1)).Nodup
-  ∧ (∀ ps ∈ s.pipes, countTasks s (producerOn ps.id) ≤ 1 ∧ ps.registered = true ∧ 0 < ps.cap)
-  ∧ s.pipes.length ≤ s.readyCap
-  ∧ (∀ e ∈ s.tasks, ∀ p, (producerOn p e.2 ∨ holdsToken p e.2 ∨ takenNotCounted p e.2) → (s.pipe? p).isSome)
-
-/-- THE invariant (per pipe): counter/channel consistency and "exactly one token iff something is counted" -/
-def Inv (s : RpqSt) : Prop :=
-  ∀ ps ∈ s.pipes,
-    ps.queued + (countTasks s (uncounted ps.id) : Int) = (ps.chan.length : Int) + (countTasks s (takenNotCounted ps.id) : Int)
-    ∧ 0 ≤ ps.queued ∧ ps.reserved = ps.queued + sumPending s ps.id
-    ∧ (∀ e ∈ s.tasks, 0 ≤ pendingRes ps.id e.2)
-    ∧ tokens s ps.id = (if ps.queued ≥ 1 then 1 else 0)
-    ∧ (∀ p' ∈ s.ready, (s.pipe? p').isSome)
-
-/-- a state in which no task has started yet and all queues are empty -/
-def Initial (s : RpqSt) : Prop :=
-  s.ready = [] ∧ (∀ ps ∈ s.pipes, ps.chan = [] ∧ ps.queued = 0 ∧ ps.reserved = 0)
-  ∧ (∀ e ∈ s.tasks, match e.2 with
-      | .sendStart .. | .trySendStart .. | .batchStart .. | .popStart | .tryPopStart | .finished _ => True
-      | _ => False)
-
 theorem inv_initial (s : RpqSt) (h : Initial s) : Inv s := by
-  sorry
+  obtain ⟨hr, hp, htk⟩ := h
+  have hstart : ∀ e ∈ s.tasks, ∀ x, uncounted x e.2 = false ∧ takenNotCounted x e.2 = false
+      ∧ holdsToken x e.2 = false ∧ pendingRes x e.2 = 0 ∧ pcOk e.2 := by
+    intro e he x
+    have := htk e he
+    obtain ⟨n, pc⟩ := e
+    cases pc <;> simp_all [uncounted, takenNotCounted, holdsToken, pendingRes, pcOk]
+  refine ⟨?_, by simp [hr], fun e he => (hstart e he 0).2.2.2.2⟩
+  intro ps hps
+  obtain ⟨h1, h2, h3⟩ := hp ps hps
+  have hU := countTasks_eq_zero s (uncounted ps.id) (fun e he => (hstart e he _).1)
+  have hT := countTasks_eq_zero s (takenNotCounted ps.id) (fun e he => (hstart e he _).2.1)
+  have hH := countTasks_eq_zero s (holdsToken ps.id) (fun e he => (hstart e he _).2.2.1)
+  have hP : sumPending s ps.id = 0 :=
+    sum_map_eq_zero s.tasks (fun e => pendingRes ps.id e.2) (fun e he => (hstart e he _).2.2.2.1)
+  refine ⟨by simp [h1, h2, hU, hT], by omega, by simp [h2, h3, hP], ?_, by simp [tokens, hr, hH, h2], by simp [hr]⟩
+  intro e he
+  rw [(hstart e he _).2.2.2.1]
+  exact Int.le_refl _
 
 /-- every grant of the scheduler, to any task, preserves well-formedness and the invariant -/
 theorem inv_step (s : RpqSt) (t : String) (hw : WellFormed s) (hi : Inv s) :
     WellFormed (s.step t).1 ∧ Inv (s.step t).1 := by
-  sorry
+  cases ht : s.task? t with
+  | none =>
+    have : s.step t = (s, .done "no-task") := by unfold RpqSt.step; simp only [ht]
+    rw [this]; exact ⟨hw, hi⟩
+  | some pc =>
+    cases pc with
+    | finished r =>
+      have : s.step t = (s, .done r) := by unfold RpqSt.step; simp only [ht]
+      rw [this]; exact ⟨hw, hi⟩
+    | sendStart p item => exact step_sendStart s t hw hi p item ht
+    | sendReserved p item => exact step_sendReserved s t hw hi p item ht
+    | sendWritten p => exact step_sendWritten s t hw hi p ht
+    | sendCounted p prev => exact step_sendCounted s t hw hi p prev ht
+    | trySendStart p item => exact step_trySendStart s t hw hi p item ht
+    | trySendWritten p => exact step_trySendWritten s t hw hi p ht
+    | trySendCounted p prev => exact step_trySendCounted s t hw hi p prev ht
+    | batchStart p items => exact step_batchStart s t hw hi p items ht
+    | batchReserved p n items sent zero => exact step_batchGo s t hw hi p n items sent zero _ (Or.inl rfl) ht
+    | batchWritten p n items sent zero => exact step_batchWritten s t hw hi p n items sent zero ht
+    | batchCounted p n items sent zero => exact step_batchGo s t hw hi p n items sent zero _ (Or.inr rfl) ht
+    | batchRolledBack p items sent zero => exact step_batchRolledBack s t hw hi p items sent zero ht
+    | popStart => exact step_popStart s t hw hi ht
+    | popGotSlot p => exact step_popGotSlot s t hw hi p ht
+    | popTaken p item => exact step_popTaken s t hw hi p item ht
+    | popDecremented p item prev => exact step_popDecremented s t hw hi p item prev ht
+    | tryPopStart => exact step_tryPopStart s t hw hi ht
+    | tryPopGotSlot p => exact step_tryPopGotSlot s t hw hi p ht
+    | tryPopTaken p item => exact step_tryPopTaken s t hw hi p item ht
+    | tryPopDecremented p item prev => exact step_tryPopDecremented s t hw hi p item prev ht
 
 /-- `reserved_count >= queued_count` at all times (the code's documented invariant) -/
 theorem queued_le_reserved (s : RpqSt) (hi : Inv s) (ps : PipeSt) (hps : ps ∈ s.pipes) : ps.queued ≤ ps.reserved := by
-  sorry
+  obtain ⟨_, _, h3, h4, _⟩ := hi.1 ps hps
+  have : 0 ≤ sumPending s ps.id := by
+    unfold sumPending
+    apply sum_nonneg_of_forall
+    intro x hx
+    obtain ⟨e, he, rfl⟩ := List.mem_map.1 hx
+    exact h4 e he
+  omega
 
 /-- hence the invariant holds after ANY schedule -/
 theorem inv_reachable (s : RpqSt) (hw : WellFormed s) (h0 : Initial s) (sched : List String) :
     Inv (sched.foldl (fun st t => (st.step t).1) s) ∧ WellFormed (sched.foldl (fun st t => (st.step t).1) s) := by
-  sorry
+  have hi := inv_initial s h0
+  clear h0
+  induction sched generalizing s with
+  | nil => exact ⟨hi, hw⟩
+  | cons t r ih =>
+    have := inv_step s t hw hi
+    exact ih (s.step t).1 this.1 this.2
 
 /-- at most one ready-list entry per pipe, so the ready list never overflows: the re-arm / arm sends in
 `send`, `try_send`, `try_send_batch`, `pop` never park (and the spin loops never spin) -/
 theorem ready_never_overflows (s : RpqSt) (hw : WellFormed s) (hi : Inv s) : s.ready.length ≤ s.pipes.length := by
-  sorry
+  have := length_le_of_count_le_one s.ready (s.pipes.map (·.id)) (ready_count_le_one s hi)
+    (fun x hx => s.pipe?_isSome_mem_ids x (hi.2.1 x hx))
+  simpa using this
 
 theorem arm_never_blocks (s : RpqSt) (hw : WellFormed s) (hi : Inv s) (p : Nat) (hp : (s.pipe? p).isSome)
     (hfree : s.ready.count p = 0) : (s.pushReady p).isSome := by
-  sorry
+  have := length_lt_of_count_le_one s.ready (s.pipes.map (·.id)) p (s.pipe?_isSome_mem_ids p hp)
+    (List.count_eq_zero.1 hfree) (ready_count_le_one s hi) (fun x hx => s.pipe?_isSome_mem_ids x (hi.2.1 x hx))
+  have h4 := hw.2.2.2.1
+  simp at this
+  have : s.ready.length < s.readyCap := by omega
+  simp [RpqSt.pushReady, this]
 
 /-- NO LOST WAKE-UP: whenever a committed item is queued on a pipe, either the pipe is on the ready list or
 some task is in the middle of an operation that holds its token (and will put it back / hand it on). -/
 theorem no_lost_wakeup (s : RpqSt) (hw : WellFormed s) (hi : Inv s) (ps : PipeSt) (hps : ps ∈ s.pipes)
     (hq : ps.queued ≥ 1) :
     ps.id ∈ s.ready ∨ ∃ e ∈ s.tasks, holdsToken ps.id e.2 = true := by
-  sorry
+  have h5 := (hi.1 ps hps).2.2.2.2.1
+  simp only [hq, if_true, tokens] at h5
+  by_cases hc : 0 < s.ready.count ps.id
+  · exact Or.inl (List.count_pos_iff.1 hc)
+  · exact Or.inr (exists_of_countTasks_pos s _ (by omega))
 
 /-- in particular: if every task is idle (not started, finished, or a consumer parked in `pop`) and an item is
 queued, a parked consumer is NOT blocked — its next grant takes the pipe off the ready list. -/
@@ -127,14 +121,29 @@ theorem parked_consumer_proceeds (s : RpqSt) (hw : WellFormed s) (hi : Inv s) (c
     (hidle : ∀ e ∈ s.tasks, ∀ p, holdsToken p e.2 = false)
     (ps : PipeSt) (hps : ps ∈ s.pipes) (hq : ps.queued ≥ 1) :
     (s.step c).2 ≠ .blocked := by
-  sorry
+  rcases no_lost_wakeup s hw hi ps hps hq with h | ⟨e, he, h⟩
+  · unfold RpqSt.step
+    rw [hc]
+    simp only [popRecv]
+    cases hr : s.ready with
+    | nil => simp [hr] at h
+    | cons a r => simp
+  · rw [hidle e he ps.id] at h
+    cases h
 
 /-- no item is stranded: when no task is mid-operation, everything physically in a channel is counted, so by
 `no_lost_wakeup` its pipe is on the ready list -/
 theorem nonempty_channel_is_ready (s : RpqSt) (hw : WellFormed s) (hi : Inv s)
     (hidle : ∀ e ∈ s.tasks, ∀ p, holdsToken p e.2 = false ∧ uncounted p e.2 = false ∧ takenNotCounted p e.2 = false)
     (ps : PipeSt) (hps : ps ∈ s.pipes) (hne : ps.chan ≠ []) : ps.id ∈ s.ready := by
-  sorry
+  have h1 := (hi.1 ps hps).1
+  rw [countTasks_eq_zero s (uncounted ps.id) (fun e he => (hidle e he _).2.1),
+    countTasks_eq_zero s (takenNotCounted ps.id) (fun e he => (hidle e he _).2.2)] at h1
+  have : 0 < ps.chan.length := List.length_pos_iff.2 hne
+  rcases no_lost_wakeup s hw hi ps hps (by omega) with h | ⟨e, he, h⟩
+  · exact h
+  · rw [(hidle e he ps.id).1] at h
+    cases h
 
 /-- FIFO and exactly-once per pipe: what consumers have taken out of a pipe, followed by what is still in its
 channel, is exactly what was written into it, in write order -/
@@ -143,33 +152,31 @@ theorem fifo_exactly_once (s : RpqSt) (hw : WellFormed s) (h0 : Initial s) (hlog
     let s' := sched.foldl (fun st t => (st.step t).1) s
     ((s'.takenLog.filter (·.1 == p)).map (·.2)) ++ ((s'.pipe? p).map (·.chan)).getD []
       = (s'.accepted.filter (·.1 == p)).map (·.2) := by
-  sorry
+  have hf : Fifo s := by
+    intro x
+    cases hps : s.pipe? x with
+    | none => simp [hlog.1, hlog.2]
+    | some ps => simp [hlog.1, hlog.2, (h0.2.1 ps (s.pipe?_some x ps hps).1).1]
+  clear h0 hlog hw
+  intro s'
+  suffices Fifo s' from this p
+  show Fifo (sched.foldl (fun st t => (st.step t).1) s)
+  induction sched generalizing s with
+  | nil => exact hf
+  | cons t r ih => exact ih (s.step t).1 (fifo_step s t hf)
 
 -- check-then-wait on Notify ---------------------------------------------------------------------------------
-
-inductive WaitEv where
-  | signal | poll
-deriving DecidableEq, Repr
-
-def runRegisterFirst (w : WaitSt) : List WaitEv → WaitSt
-  | [] => w
-  | .signal :: r => runRegisterFirst w.signal r
-  | .poll :: r => runRegisterFirst w.stepRegisterFirst.1 r
-
-def runCheckFirst (w : WaitSt) : List WaitEv → WaitSt
-  | [] => w
-  | .signal :: r => runCheckFirst w.signal r
-  | .poll :: r => runCheckFirst w.stepCheckFirst.1 r
 
 /-- `WaitGroup::wait` / `wait_for_connection` as they are now (register, then check): for EVERY interleaving of
 the signal with the waiter's steps, once the condition has been signalled two more polls complete the wait. -/
 theorem register_first_no_lost_wakeup (evs : List WaitEv) (h : WaitEv.signal ∈ evs) :
     (runRegisterFirst {} (evs ++ [.poll, .poll])).pc = 2 := by
-  sorry
+  exact runRegisterFirst_pre {} WaitSt.pre_init evs h
 
 /-- the pre-fix shape (check, then register) loses the wake-up on this interleaving -/
 theorem check_first_counterexample :
     (runCheckFirst {} [.poll, .signal, .poll, .poll, .poll]).pc = 1 := by
-  sorry
+  decide
+
 
 end Rzmq.C08
